@@ -172,7 +172,7 @@ func runCase(t *testing.T, transport, op, point, cause string) (line string) {
 			}
 		}()
 		limit := int64(8)
-		if point == "queued" {
+		if point == "queued" || point == "queuedg" {
 			limit = 1
 		}
 		w, err := newWorld(transport, point == "midblock", limit, point == "slowrun")
@@ -264,13 +264,19 @@ func runCase(t *testing.T, transport, op, point, cause string) (line string) {
 
 		// holder: a first request that occupies the limiter slot (peer silent)
 		var holderDone chan struct{}
-		if point == "queued" {
+		// queued: the holder uses the operation's own path (the operation waits for the endpoint slot); queuedg: another path
+		// (the operation takes its endpoint slot and waits for the connection-wide one)
+		if point == "queued" || point == "queuedg" {
 			holderDone = make(chan struct{})
 			hctx, hcancel := context.WithTimeout(baseCtx, 60*time.Second)
 			defer hcancel()
+			hpath := "/q"
+			if point == "queuedg" {
+				hpath = "/h"
+			}
 			go func() {
 				defer close(holderDone)
-				r, err := w.cc.Get(hctx, "/q")
+				r, err := w.cc.Get(hctx, hpath)
 				if err == nil {
 					w.cc.ReleaseMessage(r)
 				}
@@ -396,6 +402,21 @@ func runCase(t *testing.T, transport, op, point, cause string) (line string) {
 			}
 		}
 
+		// queuedg: a follow-up request for the operation's path, with a context that does not end, is issued after the
+		// interrupted one has returned; it queues behind the holder and must return when the connection is closed
+		var followCh chan struct{}
+		if point == "queuedg" && returned == 1 && (cause == "cancel" || cause == "deadline") {
+			followCh = make(chan struct{})
+			go func() {
+				defer close(followCh)
+				r, err := w.cc.Get(baseCtx, "/q")
+				if err == nil {
+					w.cc.ReleaseMessage(r)
+				}
+			}()
+			synctest.Wait()
+		}
+
 		// close: three goroutines at once, then once more
 		var wg sync.WaitGroup
 		for i := 0; i < 3; i++ {
@@ -426,7 +447,18 @@ func runCase(t *testing.T, transport, op, point, cause string) (line string) {
 			done = 1
 		default:
 		}
+		if followCh != nil {
+			// the connection is closed: the follow-up request must have returned (its context has not ended)
+			select {
+			case <-followCh:
+			default:
+				returned, after, kind = 0, -1, "followup-stuck"
+			}
+		}
 		baseCancel()
+		if followCh != nil {
+			<-followCh
+		}
 		if holderDone != nil {
 			<-holderDone
 		}
